@@ -15,6 +15,7 @@ type PipeOpts struct {
 	Unknown       bool     // unknown steps (top level only)
 	Refs          []string // when set, strings are built around these reference snippets (env interpolation workloads)
 	UniqueStrings bool     // every generated string carries a unique literal id
+	BlockNames    []string // variable names the pipeline env block may (re)define (referenced by Refs)
 	MaxGroupDepth int      // nesting of groups (default 2)
 	Signature     bool     // literal `signature` records on command steps
 	NoTime        bool
@@ -71,6 +72,7 @@ type pgen struct {
 	values       []*doc.Node
 	templates    []*doc.Node
 	pipeEnvNames []string
+	blockStrings []string // string values of the pipeline env block (re-used verbatim elsewhere)
 	sweepUsed    bool
 }
 
@@ -127,7 +129,14 @@ func (g *pgen) text(class string) string {
 	return s
 }
 
-func (g *pgen) strNode(class string) *doc.Node { return doc.S(g.text(class)) }
+func (g *pgen) strNode(class string) *doc.Node {
+	if len(g.blockStrings) > 0 && !strings.HasPrefix(class, "pipeline.env") && g.chance(12) {
+		// the byte-identical string that already occurred in the pipeline env block
+		g.feat("string-reused-from-env-block@" + class)
+		return doc.S(g.blockStrings[g.r.IntN(len(g.blockStrings))])
+	}
+	return doc.S(g.text(class))
+}
 
 // typedScalar: a scalar for positions documented as string|int|float|bool|null.
 func (g *pgen) typedScalar(class string, allowFloat, allowNull bool) *doc.Node {
@@ -287,8 +296,20 @@ func (g *pgen) pipeline() *doc.Node {
 		}
 		for i := 0; i < n; i++ {
 			name := strings.ToUpper(Ident(g.r)) + "_" + g.uid.Next()
-			e.Map = append(e.Map, doc.P(name, g.typedScalar("pipeline.env", true, true)))
+			if len(g.o.BlockNames) > 0 && g.chance(2) {
+				// a block entry that (re)defines a variable the reference snippets use
+				name = g.o.BlockNames[g.r.IntN(len(g.o.BlockNames))]
+				if e.Has(name) {
+					continue
+				}
+				g.feat("pipeline.env:defines-referenced-variable")
+			}
+			v := g.typedScalar("pipeline.env", true, true)
+			e.Map = append(e.Map, doc.P(name, v))
 			g.pipeEnvNames = append(g.pipeEnvNames, name)
+			if v.Kind == doc.KStr {
+				g.blockStrings = append(g.blockStrings, v.Str)
+			}
 		}
 		if len(e.Map) == 0 && g.chance(2) {
 			envPair = doc.P("env", doc.Null())
@@ -335,6 +356,19 @@ func (g *pgen) template() *doc.Node {
 	}
 	if len(t.Map) == 0 {
 		t.Map = append(t.Map, doc.P("retry_"+g.uid.Next(), doc.B(true)))
+	}
+	if len(g.templates) > 0 && g.chance(2) {
+		// a template that merges an earlier one and overrides one of its keys AFTER the merge key
+		base := g.templates[g.r.IntN(len(g.templates))]
+		t.Map = append([]doc.Pair{{Merge: true, Val: base}}, t.Map...)
+		for _, bp := range base.Map {
+			if !bp.Merge && !t.Has(bp.Key) && bp.Key != "plugins" && bp.Key != "env" {
+				t.Map = append(t.Map, doc.P(bp.Key, doc.S("overridden-"+g.uid.Next())))
+				g.feat("merge:chain-override-after-merge")
+				break
+			}
+		}
+		g.feat("merge:template-chain")
 	}
 	return t
 }
